@@ -30,6 +30,12 @@ from vlib import Ctx, run_tlc, build_harness, run_bin, parse_jsonl, SPEC
 
 D = os.path.join(SPEC, "conn")
 OPEN_ORDER = ["CrlfAfterBody", "ReadAheadLost"]   # deviations that may be listed open in KNOWN_FINDINGS.txt
+# Named leniencies of the statement (HttpConn.tla): outcomes the property's text leaves open. The code model (Dev = {}) has the
+# tree's behaviour (400 for a head cut off by the client's half-close; 400 for bare-LF line endings); a connection that only
+# these explain is SPEC-DRIFT, not a violation:
+#   TruncSilentClose  no response at all, then close, for a head truncated by the client's half-close
+#   LenientLF         the normal response to a complete head whose line endings are bare LF (RFC 7230 3.5)
+LENIENCIES = ["LenientLF", "TruncSilentClose"]
 
 
 def trace_cfg(path, dev, has_timeout):
@@ -91,17 +97,21 @@ def run(tier, replay):
 
     # ---- 1. model checking ----
     mc = [("MC_HttpConn_quick.cfg", "loop<=2, timeout"), ("MC_HttpConn_quick_nt.cfg", "loop<=2, no timeout"),
-          ("MC_HttpConn_fields.cfg", "field product, length 1")]
+          ("MC_HttpConn_fields.cfg", "field product, length 1"),
+          ("MC_HttpConn_trunc.cfg", "head truncated by the client's half-close, <=2, timeout"),
+          ("MC_HttpConn_trunc_nt.cfg", "head truncated by the client's half-close, <=2, no timeout")]
     if thorough:
         mc.append(("MC_HttpConn_thorough.cfg", "loop<=3, timeout"))
     for cfg, note in mc:
-        r = run_tlc("MC_HttpConn.tla", cfg, D, workers=8, coverage=(cfg == "MC_HttpConn_quick.cfg"), timeout=2400, work_id="c01", heap="8g")
+        r = run_tlc("MC_HttpConn.tla", cfg, D, workers=min(8, int(os.environ.get("VERIF_TLC_WORKERS", "8"))), coverage=(cfg in ("MC_HttpConn_quick.cfg", "MC_HttpConn_trunc_nt.cfg")), timeout=2400, work_id="c01", heap="8g")
         ctx.add_tlc("MC " + note, r)
         ctx.require_tlc_ok(cfg, r)
         if cfg == "MC_HttpConn_quick.cfg":
             ctx.require_cover(cfg, r, ["ClientStep", "ServerStep", "Cli_IdleBegin", "Cli_IdleEnd", "Cli_Shut", "Srv_ReadFirst", "Srv_Eof", "Srv_Timeout408",
                                        "Srv_HeadDone", "Srv_BodyDone", "Srv_Respond400", "Srv_Dispatch", "Srv_Write"])
-    for cfg, dev in (("MC_HttpConn_devRAL.cfg", "ReadAheadLost"), ("MC_HttpConn_devOVF.cfg", "OptionsVersionFixed"),
+        if cfg == "MC_HttpConn_trunc_nt.cfg":
+            ctx.require_cover(cfg, r, ["Cli_Shut", "Srv_HeadEof", "Srv_Respond400", "Srv_Write"])
+    for cfg, dev in (("MC_HttpConn_devEOF.cfg", "EofEndsHead"), ("MC_HttpConn_devRAL.cfg", "ReadAheadLost"), ("MC_HttpConn_devOVF.cfg", "OptionsVersionFixed"),
                      ("MC_HttpConn_devO404.cfg", "Options404Bare"), ("MC_HttpConn_devCRLF.cfg", "CrlfAfterBody")):
         r = run_tlc("MC_HttpConn.tla", cfg, D, workers=4, timeout=900, work_id="c01")
         ctx.add_tlc("sensitivity Dev={%s}" % dev, r)
@@ -170,6 +180,30 @@ def run(tier, replay):
                     continue
                 add(rt, has_t, s["script"], x, "tlc", s["sends"])
 
+    # heads truncated by the client's half-close (script generation Gen_trunc2_*: the truncated head is the last element, the
+    # client shuts down its sending side after it) and complete heads with bare-LF line endings (leniency LenientLF)
+    def lf(cls, conn):
+        return {"k": "lf", "hl": 3, "dl": cls, "bl": 0, "wf": False, "m": "GET", "tgt": rnd.choice(["plain", "empty"]), "conn": conn, "ver": "1.1"}
+    n_trunc = 0
+    for has_t in (True, False):
+        tg = [x for x in gen("Gen_trunc2_%s.cfg" % ("t" if has_t else "nt")) if x["script"][-1]["k"] == "trunc"]
+        single = [x for x in tg if len(x["script"]) == 1]
+        pairs = [x for x in tg if len(x["script"]) == 2 and (thorough or x["script"][-1]["hl"] == 2)]
+        for rt in (["threaded"] if has_t else ["threaded", "tokio"]):
+            for x in single:
+                add(rt, has_t, x["script"], x, "whole")
+                for pl in (["bytewise", "random", "split:%d" % rnd.randint(1, 40)] if thorough else [rnd.choice(["bytewise", "random", "split:%d" % rnd.randint(1, 40)])]):
+                    add(rt, has_t, x["script"], x, pl)
+                n_trunc += 1
+            for x in (pairs if thorough else rnd.sample(pairs, min(len(pairs), 6))):
+                if has_t and any(e["k"] == "idle" for e in x["script"]):
+                    continue     # the idle wait ends in a 408: the truncated head is never sent
+                add(rt, has_t, x["script"], x, "reqs")
+                n_trunc += 1
+            for cls in (1, 2, 3, 4):
+                add(rt, has_t, [lf(cls, rnd.choice(["close", "close", "ka"]))], {"expected": [0], "final_open": False}, rnd.choice(["whole", "whole", "random"]))
+    ctx.cov["truncated_head_scripts"] = n_trunc
+
     # large bodies echoed to a client that is slow to start reading (the response exceeds the socket buffers):
     # "a body exactly as long as its Content-Length", whatever its size
     def rq(m, tgt, conn, ver, bl):
@@ -226,11 +260,24 @@ def run(tier, replay):
                     what = {"CrlfAfterBody": "CRLF after a non-empty body, beyond Content-Length (pinned by test_response)",
                             "ReadAheadLost": "bytes read ahead beyond the current request are dropped with the per-request BufReader: coalesced requests are never answered"}[d]
                     ctx.violation(what, None, dev=d)
-            ctx.add_part(label, connections=len(grp), accepted_ideal=len(acc), explained_by_open_deviation=len(attributed), unexplained=len(left))
+            # level 2 (what may gate): what neither the code model nor an open deviation explains is judged with the statement's
+            # named leniencies switched on; explained there => the tree differs from the code model only where the statement leaves room
+            lenient = set()
+            if left:
+                lenient = validate(ctx, left, LENIENCIES + openk, has_t, label + "-leniencies")
+                ll = [r for r in left if r["id"] in lenient]
+                if ll:
+                    ex = ll[0]
+                    ctx.drift("conn-leniency", "%d connection(s) on the %s runtime differ from the code model only within a named leniency (%s); first: script=%s events=%s"
+                              % (len(ll), rt, ", ".join(LENIENCIES), json.dumps([(e["k"], e["hl"], e["dl"]) for e in ex["script"]]),
+                                 json.dumps([(e["e"], e["n"], e["r"]["st"]) for e in ex["events"]])[:600]),
+                              {"kind": "c01-leniency", "runtime": rt, "has_timeout": has_t, "connections": ll[:5]})
+                left = [r for r in left if r["id"] not in lenient]
+            ctx.add_part(label, connections=len(grp), accepted_ideal=len(acc), explained_by_open_deviation=len(attributed), within_leniency=len(lenient), unexplained=len(left))
             if left:
                 ex = left[0]
                 ctx.violation("%d connection(s) on the %s runtime are not a behaviour of HttpConn (Dev={} nor any open deviation); first: script=%s plan=%s events=%s"
-                              % (len(left), rt, json.dumps([(e["m"], e["tgt"], e["conn"], e["ver"], e["wf"], e["hl"], e["bl"]) if e["k"] == "req" else "idle" for e in ex["script"]]),
+                              % (len(left), rt, json.dumps([(e["k"], e["m"], e["tgt"], e["conn"], e["ver"], e["wf"], e["hl"], e["bl"]) if e["k"] != "idle" else "idle" for e in ex["script"]]),
                                  ex["plan"], json.dumps([(e["e"], e["n"]) if e["e"] == "Send" else ((e["e"], e["r"]) if e["e"] == "Recv" else e["e"]) for e in ex["events"]])[:1500]),
                               {"kind": "connections", "runtime": rt, "has_timeout": has_t, "connections": left[:20]})
     ctx.cov["evaluations"] = total_conns
